@@ -18,7 +18,8 @@ from . import _family as F
 
 MEMBERS = ["uint8 {n};", "uint16 {n};", "uint32 {n};", "uint64 {n};", "int24 {n};", "uint8 {n}[4];", "uint16 {n}[3];", "char {n}[5];", "int32 {n}[2];",
            "struct {{ uint16 x; uint16 y; }} {n};", "struct {{ uint8 x; uint32 y; }} {n};", "struct {{ uint8 p; uint8 q; }};",
-           "struct {{ struct {{ uint8 i; uint8 j; }} inn; uint16 k; }} {n};", "uint8 {n}[2][2];", "E {n};"]
+           "struct {{ struct {{ uint8 i; uint8 j; }} inn; uint16 k; }} {n};", "uint8 {n}[2][2];", "E {n};",
+           "union {{ uint8 x; uint16 y; }} {n};", "union {{ uint16 a; uint8 b[2]; }} {n};"]           # a union nested in the union
 PRELUDE = "enum E : uint16 { E_A = 1, E_B = 7 };\n"
 
 
